@@ -83,6 +83,9 @@ def handle (cmd : String) (args : List String) : Option String :=
   | "msg", ["ns", ip, mac] => do
     let ip ← fromHex ip; let mac ← fromHex mac
     some (toHex (nsMarshal ip mac))
+  | "wf", ["any", hm, f] => do
+    let hm ← fromHex hm; let f ← fromHex f
+    some (verdict (Spec.Wire.wfAny hm f))
   | "wf", ["arp", hm, dst, op, sha, spa, tha, tpa, f] => do
     let hm ← fromHex hm; let dst ← fromHex dst; let op ← op.toNat?
     let sha ← fromHex sha; let spa ← fromHex spa; let tha ← fromHex tha; let tpa ← fromHex tpa; let f ← fromHex f
